@@ -25,7 +25,11 @@ Record step := {
   s_self : nat;                            (* index of this request's own (series, window) in the watch list *)
   s_single_slot : bool;                    (* generator: from/until were chosen inside one 10 s slot (or until <= from) *)
   s_before : list (option tnode);          (* storage.Get of every watch before the request *)
-  s_after : list (option tnode)            (* ... and after it *)
+  s_after : list (option tnode);           (* ... and after it *)
+  s_meta_before : list (option (bytes * N * bytes));   (* GetOutput.SpyName / SampleRate / Units of every watch *)
+  s_meta_after : list (option (bytes * N * bytes));
+  s_labels_before : list bool;             (* for every (label key, value) pair occurring in the case: listed by GetValues? *)
+  s_labels_after : list bool
 }.
 
 Record case := {
@@ -70,13 +74,37 @@ Fixpoint t_mod64 (t : tnode) : tnode :=
 Definition otree (o : option tnode) : tnode := match o with Some t => t | None => t_empty end.
 Definition otree_eqb (a b : option tnode) : bool := t_eqb (otree a) (otree b).
 
+Definition meta_eqb (a b : option (bytes * N * bytes)) : bool :=
+  match a, b with
+  | None, None => true
+  | Some (s1, r1, u1), Some (s2, r2, u2) => beqb s1 s2 && N.eqb r1 r2 && beqb u1 u2
+  | _, _ => false
+  end.
+
+(* application name of a series name: the bytes before the first '{' *)
+Fixpoint app_of (n : bytes) : bytes :=
+  match n with
+  | [] => []
+  | c :: n' => if N.eqb c 123 then [] else c :: app_of n'
+  end.
+
 Definition watch_name (w : bytes * Z * Z) := fst (fst w).
 Definition watch_lo (w : bytes * Z * Z) := snd (fst w).
 Definition watch_hi (w : bytes * Z * Z) := snd w.
 
 (* may the acknowledged request [self] legitimately change the answer for watch [w]? same series, overlapping windows *)
+(* (a Get by application name matches every series of the application, whatever its tags) *)
 Definition may_touch (self w : bytes * Z * Z) : bool :=
-  beqb (watch_name self) (watch_name w) && (watch_lo self <? watch_hi w) && (watch_lo w <? watch_hi self).
+  beqb (app_of (watch_name self)) (app_of (watch_name w)) && (watch_lo self <? watch_hi w) && (watch_lo w <? watch_hi self).
+
+Definition same_app (self w : bytes * Z * Z) : bool := beqb (app_of (watch_name self)) (app_of (watch_name w)).
+
+Fixpoint meta_untouched_ok (ws : list (bytes * Z * Z)) (self : bytes * Z * Z) (b a : list (option (bytes * N * bytes))) : bool :=
+  match ws, b, a with
+  | [], [], [] => true
+  | w :: ws', x :: b', y :: a' => (same_app self w || meta_eqb x y) && meta_untouched_ok ws' self b' a'
+  | _, _, _ => false
+  end.
 
 Fixpoint untouched_ok (ws : list (bytes * Z * Z)) (self : bytes * Z * Z) (b a : list (option tnode)) : bool :=
   match ws, b, a with
@@ -91,7 +119,8 @@ Definition check_render_step (s : step) : verdict :=
   else if st =? -1 then SpecFails "the /render handler did not answer within the timeout"
   else
   combine_verdicts [
-    spec (list_eqb otree_eqb (s_before s) (s_after s)) "a /render request changed stored data";
+    spec (list_eqb otree_eqb (s_before s) (s_after s) && list_eqb meta_eqb (s_meta_before s) (s_meta_after s) &&
+          list_eqb Bool.eqb (s_labels_before s) (s_labels_after s)) "a /render request changed stored data";
     let m0 := outcome_code (render (s_query s) (s_t0 s) (s_t0 s)) in
     let m1 := outcome_code (render (s_query s) (s_t1 s) (s_t1 s)) in
     let m2 := outcome_code (render (s_query s) (s_t0 s) (s_t1 s)) in
@@ -110,6 +139,7 @@ Definition check_step (ws : list (bytes * Z * Z)) (s : step) : verdict :=
       | Some self, Some b, Some a =>
           combine_verdicts [
             spec (untouched_ok ws self (s_before s) (s_after s)) "an acknowledged ingest changed the answer for another series or window";
+            spec (meta_untouched_ok ws self (s_meta_before s) (s_meta_after s)) "an acknowledged ingest changed the metadata reported for another application";
             if s_single_slot s then
               match s_records s with
               | Some rs => spec (t_eqb (otree a) (t_mod64 (t_merge (otree b) (build rs))))
@@ -124,8 +154,13 @@ Definition check_step (ws : list (bytes * Z * Z)) (s : step) : verdict :=
       | _, _, _ => ModelDiffers "harness: self index out of range"
       end
     else
-      spec (list_eqb otree_eqb (s_before s) (s_after s))
-           "a rejected request changed the answer of a query (earlier data changed, or part of the request is visible)";
+      combine_verdicts [
+        spec (list_eqb otree_eqb (s_before s) (s_after s))
+             "a rejected request changed the answer of a query (earlier data changed, or part of the request is visible)";
+        spec (list_eqb meta_eqb (s_meta_before s) (s_meta_after s))
+             "a rejected request changed the metadata (spy name / sample rate / units) reported for stored data";
+        spec (list_eqb Bool.eqb (s_labels_before s) (s_labels_after s))
+             "a rejected request left label keys/values visible in the label listings" ];
     (* status code against the handler model; the clock only matters through now-relative from/until and retention *)
     let m0 := outcome_code (model_status s (s_t0 s)) in
     let m1 := outcome_code (model_status s (s_t1 s)) in
@@ -133,17 +168,21 @@ Definition check_step (ws : list (bytes * Z * Z)) (s : step) : verdict :=
 
 (* the harness dumps the answers before the first request and after every request; nothing happens between two
    requests, so the answers before request i+1 are the answers after request i (an empty s_before means exactly that) *)
-Fixpoint check_steps (ws : list (bytes * Z * Z)) (prev : list (option tnode)) (l : list step) : list verdict :=
+Fixpoint check_steps (ws : list (bytes * Z * Z)) (prev : list (option tnode)) (prevm : list (option (bytes * N * bytes)))
+         (prevl : list bool) (first : bool) (l : list step) : list verdict :=
   match l with
   | [] => []
   | s :: l' =>
-      let b := match s_before s with [] => prev | b => b end in
+      let b := if first then s_before s else prev in
+      let bm := if first then s_meta_before s else prevm in
+      let bl := if first then s_labels_before s else prevl in
       let s' := {| s_render := s_render s; s_query := s_query s; s_ctype := s_ctype s; s_body := s_body s; s_records := s_records s;
                    s_space_ok := s_space_ok s; s_ret_thr := s_ret_thr s; s_t0 := s_t0 s; s_t1 := s_t1 s;
                    s_status := s_status s; s_self := s_self s; s_single_slot := s_single_slot s;
-                   s_before := b; s_after := s_after s |} in
-      check_step ws s' :: check_steps ws (s_after s) l'
+                   s_before := b; s_after := s_after s; s_meta_before := bm; s_meta_after := s_meta_after s;
+                   s_labels_before := bl; s_labels_after := s_labels_after s |} in
+      check_step ws s' :: check_steps ws (s_after s) (s_meta_after s) (s_labels_after s) false l'
   end.
 
 Definition check_case (c : case) : verdict :=
-  combine_verdicts (check_steps (c_watches c) [] (c_steps c)).
+  combine_verdicts (check_steps (c_watches c) [] [] [] true (c_steps c)).
